@@ -172,6 +172,10 @@ def judge_wire(ck, air, n_retry, lim, replay):
         if i in marks:
             run_first, run_len, acc, last_inf, granted = None, 0, 0, None, 0
         if is_wtx(out):
+            if i == 0 or i in marks or air.answers[i - 1] != out:
+                ck.fail("isodep-wtx-response-differs", "S(WTX) response %s (block %d) does not repeat the request %r" % (
+                    out.hex(), i, air.answers[i - 1].hex() if i and isinstance(air.answers[i - 1], bytes) else None), replay)
+                return
             m = out[1] & 0x3F
             if m == 0 or m > 59:
                 ck.fail("isodep-wtx-rfu-multiplier-granted", "S(WTX) request %s with RFU multiplier %d was granted (block %d)"
@@ -386,8 +390,139 @@ def run(ck):
     # stale response after a failed exchange (open finding): response lost beyond the budget, next I-block lost once
     one(Cfg("A", 8, 11, 256, 256, 253, (0, 0, 0), 1, 4), "dldlldd", [b"\x00\xb0\x00\x00\x04", b"\x00\xb0\x00\x04\x04"], "witness")
 
+    # ------------------------------------------------------------------ cards that never stop (any card; L3 + tie)
+    # a card that answers from a list and then repeats a second list for ever: endless S(WTX) requests, R(ACK) with the
+    # other block number for ever, chained response blocks for ever (with and without INF), mixtures, with faults.
+    # L3: the exchange must end (SimLimit = interaction budget used up) with ok / Type4TagCommandError, and the three
+    # wire-level bounds hold (judge_wire).  L2: the model is asked with the same card (request 'cyc').
+    cyc_reqs = []
+
+    def flood(kind, fsci, fwi, script, prefix, cycle, cmds, bucket):
+        if len(ck.fails) >= 50:
+            return
+        replay = {"kind": kind, "fsci": fsci, "fwi": fwi, "script": script,
+                  "card_answers_first": [None if r is None else bytes(r).hex() for r in prefix],
+                  "card_answers_then_for_ever": [None if r is None else bytes(r).hex() for r in cycle],
+                  "commands": [None if c is None else bytes(c).hex() for c in cmds]}
+        try:
+            fwt = fwt_of(fwi if fwi <= 14 else 4)
+            n, lim = min(int(1 / fwt), 5), wlim_spec(fwi)
+            card = sims.CycleCard(prefix, cycle)
+            # interaction budget: four times what one retry loop can need, per command, and room for 300 loops
+            air = sims.Air(card, script, 256, 256, cap=len(cmds) * 4 * (n + 1) * (lim + 2) + 1500 * (n + 2))
+            if kind == "A":
+                air.ats = bytes([5, 0x70 | fsci, 0x80, (fwi << 4), 0x02])
+                tag = tt4.Type4ATag(air, nfc.clf.RemoteTarget("106A", sens_res=bytearray(b"\x44\x03"), sel_res=bytearray(b"\x20"),
+                                                             sdd_res=bytearray(b"\x04\x01\x02\x03\x04\x05\x06")))
+            else:
+                tag = tt4.Type4BTag(air, nfc.clf.RemoteTarget("106B", sensb_res=bytearray(
+                    [0x50, 1, 2, 3, 4, 0, 0, 0, 0, 0, (fsci << 4) | 1, fwi << 4])))
+            results = run_ops(tag, air, cmds, sims)
+            dep = tag._dep
+            errno = getattr(dep, "errno", None)
+            tr = [b for b, _ in air.trace]
+            shown = ",".join(hx(b) for b in tr) or "."
+            if len(tr) > 15:
+                shown = ",".join(hx(b) for b in tr[:12]) + ",.," + ",".join(hx(b) for b in tr[-3:])
+            real = "%s | %d/%s | %d | %s" % (";".join(results), dep.pni, "none" if errno is None else "%d" % errno, len(tr), shown)
+            replay["impl"] = real
+            line = "cyc %d %d %d %d %s %s %s %s" % (
+                dep.miu, dep.n_retry_nak, dep.n_retry_ack, wlim_of(dep, fwi), script or "-",
+                ",".join("x" if r is None else hx(r) for r in prefix) or ".",
+                ",".join("x" if r is None else hx(r) for r in cycle) or ".", ",".join("N" if c is None else hx(c) for c in cmds))
+            cyc_reqs.append((line, real, replay))
+            ck.case(("cyc", kind, fsci, fwi, script, tuple(prefix), tuple(cycle), tuple(cmds)), True, bucket)
+            for c, r in zip(cmds, results):
+                if r == "exc SimLimit":
+                    last = tr[-1] if tr else b""
+                    what = ("S(WTX) requests" if is_wtx(last) else "R(ACK) with the other block number" if last[:1] and last[0] & 0xEE == 0x02
+                            else "chained response blocks" if last[:1] and last[0] & 0xFE == 0xA2 else "its answers")
+                    ck.fail("isodep-endless-exchange", "transceive(%s) had not returned after %d block exchanges (budget: 4 x the %d "
+                            "blocks one retry loop may need + room for 1500 loops): the card keeps the reader busy with %s for ever"
+                            % ("None" if c is None else bytes(c).hex(), air.cap, (n + 1) * (lim + 1), what), replay)
+                    return
+                if r.startswith("ret "):
+                    ck.fail("isodep-bad-return", "transceive returned %s" % r[4:], replay)
+                if c is not None and len(c) and r.startswith("exc") and r[4:] not in ("TagCommandError(0)", "TagCommandError(-1)", "TagCommandError(-2)"):
+                    ck.fail("isodep-raw-exception-any-card", "transceive(%s) raised %s" % (bytes(c).hex(), r[4:]), replay)
+            fsc = FSC_TABLE[min(fsci, 8)]
+            for b in tr:
+                if not is_wtx(b) and len(b) + 2 > fsc:
+                    ck.fail("isodep-block-exceeds-fsc", "block %s (%d+2 octets) exceeds FSC %d" % (b.hex(), len(b), fsc), replay)
+            judge_wire(ck, air, n, lim, replay)
+        except Exception as e:  # noqa
+            ck.fail("isodep-unexpected-behaviour", "%s: %s (%s)" % (type(e).__name__, e, where(e)), replay)
+
+    big = bytes((7 + i) % 256 for i in range(253))
+    short, chained_cmd = b"\x00\xb0\x00\x00\x04", bytes(range(1, 31))
+    # the three as-found floods first (FWI 14: no retries, limit 59)
+    flood("A", 0, 14, "", [], [b"\xf2\x01"], [short], "flood:S(WTX)")
+    flood("B", 8, 11, "", [], [b"\xa3"], [short], "flood:R(ACK)")
+    flood("A", 8, 13, "", [], [b"\x12" + big, b"\x13" + big], [short], "flood:chaining")
+    flood("B", 8, 13, "", [], [b"\x12", b"\x13"], [short], "flood:chaining")
+    for fwi in ([8, 9, 10, 11, 12, 13, 14, 15] if ck.thorough else [9, 11, 14]):
+        lim = wlim_spec(fwi)
+        for m in (1, 2, 58, 59):
+            if lim // m > (2000 if ck.thorough else 500):
+                continue
+            for kind, fsci, cmd in (("A", 0, short), ("B", 0, chained_cmd), ("A", 8, short)):
+                for pcb in (0xF2, 0xF3):
+                    flood(kind, fsci, fwi, "", [], [bytes([pcb, m])], [cmd], "flood:S(WTX)")
+                # the flood starts in the second retry round / behind the first command block / in the response phase
+                flood(kind, fsci, fwi, "l", [], [bytes([0xF2, m])], [cmd], "flood:S(WTX)")
+                flood(kind, fsci, fwi, "", [b"\xa2"], [bytes([0xF2, m])], [cmd], "flood:S(WTX)")
+                flood(kind, fsci, fwi, "", [b"\x12\x55" if len(cmd) <= FSC_TABLE[fsci] - 3 else b"\xa2", b"\xa3", b"\x12\x55"],
+                      [bytes([0xF2, m])], [cmd], "flood:S(WTX)")
+                # limit reached exactly / exceeded by one request: lim // m requests then the block
+                k = lim // m
+                if k <= 600:
+                    flood(kind, fsci, fwi, "", [bytes([0xF2, m])] * k + [b"\x02\x90\x00"], [], [short], "S(WTX) at the limit")
+                    flood(kind, fsci, fwi, "", [bytes([0xF2, m])] * (k + 1) + [b"\x02\x90\x00"], [], [short], "S(WTX) at the limit")
+                    flood(kind, fsci, fwi, "", [bytes([0xF2, m])] * k + [None] + [bytes([0xF2, m])] * k + [b"\x02\x90\x00"], [], [short],
+                          "S(WTX) at the limit")
+        # RFU multipliers (0, 60..63, and with the upper bits set), once and for ever
+        for mb in (0x00, 0x3C, 0x3D, 0x3F, 0x40, 0x80, 0xC0, 0x7B, 0xFB, 0x41, 0xFF):
+            flood("AB"[mb & 1], 2, fwi, "", [], [bytes([0xF2, mb])], [short], "S(WTX) multiplier")
+            flood("AB"[mb & 1], 2, fwi, "", [bytes([0xF2, mb]), b"\x02\x6a\x82"], [], [short, short], "S(WTX) multiplier")
+            flood("AB"[mb & 1], 2, fwi, "", [b"\x12\x01\x02", bytes([0xF2, mb]), b"\x03\x90\x00"], [], [short, None, short], "S(WTX) multiplier")
+        # R(ACK) with the other block number for ever, alone and mixed with timeouts / S(WTX) / after progress
+        for cyc in ([b"\xa3"], [None, b"\xa3"], [b"\xf2\x01", b"\xa3"], [b"\xa3", b""], [b"\xa3", None, None]):
+            flood("A", 0, fwi, "", [], cyc, [short], "flood:R(ACK)")
+            flood("B", 0, fwi, "", [], cyc, [chained_cmd], "flood:R(ACK)")
+            flood("A", 0, fwi, "dl", [b"\xa2"], [b"\xa2" if c == b"\xa3" else c for c in cyc], [chained_cmd], "flood:R(ACK)")
+        # chained response blocks for ever: with INF (the response grows beyond 65538), without INF, with S(WTX) between
+        if fwi >= 11:
+            for cyc in ([b"\x12" + big, b"\x13" + big], [b"\x12", b"\x13"], [b"\x12" + big, b"\x13"],
+                        [b"\xf2\x01", b"\x12" + big, b"\xf2\x01", b"\x13" + big], [b"\x12" + big, None, b"\x13" + big, None]):
+                flood("A", 8, fwi, "", [], cyc, [short], "flood:chaining")
+                flood("B", 0, fwi, "", [b"\xa2", b"\xa3"], [cyc[(i + 0) % len(cyc)] for i in range(len(cyc))], [chained_cmd], "flood:chaining")
+    # response size at the limit: 65538 / 65539 octets pass, one chained block more does not
+    if ck.thorough:
+        for total in (65537, 65538, 65539, 65540, 65792):
+            blocks, left, bn = [], total, 0
+            while left > 0:
+                nxt = min(253, left)
+                left -= nxt
+                blocks.append(bytes([(0x12 if left else 0x02) | bn]) + bytes(nxt))
+                bn ^= 1
+            flood("A", 8, 14, "", blocks, [], [short], "response size limit")
+    # random cards from an alphabet of well-formed and odd blocks
+    alphabet = [b"\xf2\x01", b"\xf2\x3b", b"\xf2\x3c", b"\xf2\x00", b"\xf3\x02", b"\xa2", b"\xa3", b"\xb2", b"\xb3", b"\x02\x90\x00",
+                b"\x03\x90\x00", b"\x12", b"\x13", b"", None, b"\xf2", b"\xc2", b"\x0a\x00", b"\x12" + big]
+    for _ in range(1500 if ck.thorough else 300):
+        fwi = rng.choice([9, 10, 11, 11, 12, 13, 14])
+        prefix = [rng.choice(alphabet + [b"\x12\x01", b"\x13\x02"]) for _ in range(rng.randrange(0, 5))]
+        cycle = [rng.choice(alphabet) for _ in range(rng.choice([0, 1, 1, 2, 2, 3]))]
+        if fwi < 11 and any(c is not None and is_wtx(c) and (c[1] & 0x3F) in (1, 2) for c in cycle):
+            cycle = [c for c in cycle if not (c is not None and is_wtx(c))]
+        ncmd = rng.choice([1, 1, 2, 3])
+        cmds = [None if rng.random() < 0.15 else make_cmd(rng, rng.choice([1, 5, 13, 14, 30]), 0xA0 + j) for j in range(ncmd)]
+        script = "".join(rng.choice(KINDS) if rng.random() < 0.1 else "d" for _ in range(rng.randrange(0, 12))).rstrip("d")
+        flood(rng.choice("AB"), rng.choice([0, 0, 2, 8]), fwi, script, prefix, cycle, cmds, "random card with a cycle")
+
     # ------------------------------------------------------------------ activation parameters (exhaustive)
     act_reqs = []
+    nolimit_seen = []
 
     def act_real(cfg, rp):
         """activate; canonical 'ok miu n_nak n_ack pni max_wtxm_sum' (the last one 'none' on a tree without the limit)"""
@@ -410,7 +545,9 @@ def run(ck):
         if abs(dep.fwt - f) > 1e-12 or dep.n_retry_nak != min(int(1 / f), 5) or dep.n_retry_ack != dep.n_retry_nak:
             ck.fail("isodep-fwt-derivation", "%s: fwt %r retry %r/%r" % (what, dep.fwt, dep.n_retry_nak, dep.n_retry_ack), rp)
         w = getattr(dep, "max_wtxm_sum", None)
-        if w != wlim_spec(fwi):
+        if w != wlim_spec(fwi) and not (w is None and nolimit_seen):
+            if w is None:
+                nolimit_seen.append(1)     # a tree without the limit: said once
             ck.fail("isodep-wtx-limit-derivation", "%s: waiting time limit per block %r, expected %d (WTXM 59 at FWI 14 "
                     "in units of this card's FWT)" % (what, w, wlim_spec(fwi)), rp)
 
@@ -502,6 +639,20 @@ def run(ck):
             one(cfg, script, [cmd], "exhaustive-wtx<=%d" % k)
             nex += 1
 
+    # ------------------------------------------------------------------ sessions: commands and presence checks in between
+    # (latch cleared by the presence check, stale block number after a chained response, ...): every placement of <= 2
+    # faults (3 in the thorough tier for the first shape) over the legs of the whole session
+    sess = [((5, 3), [0, None, 1]), ((14, 12), [0, None, None, 1, 2]), ((5, 25), [None, 0, 1, None, 2])]
+    for si, ((clen, rlen), plan) in enumerate(sess):
+        cfg = Cfg("AB"[si % 2], 0, 10 + si % 2, 256, 256, 13, (0, 0, 0), 1, rlen)
+        cs = [make_cmd(rng, clen + j, 0xB0 + 8 * si + j) for j in range(3)]
+        cmds = [None if x is None else cs[x] for x in plan]
+        legs0 = legs_of(cfg, cmds)
+        k = 3 if ck.thorough and si == 0 else 2
+        for script in scripts_exhaustive(legs0 + 2 * k, k, "lc" if si else "lce"):
+            one(cfg, script, cmds, "session-exhaustive<=%d" % k)
+            nex += 1
+
     # ------------------------------------------------------------------ sampled beyond
     nrand = 12000 if ck.thorough else 2500
     for _ in range(nrand):
@@ -530,12 +681,12 @@ def run(ck):
             rlen = rng.randrange(0, 9)
         if rng.random() < 0.1 and chunk > 2:
             rlen = rng.randrange(0, 300)
-        cfg = Cfg(kind, fsci, fwi, max_send, rng.choice([256, 255]), chunk, wtx, rng.choice([1, 2, 59, 63, 0x41]), rlen,
+        cfg = Cfg(kind, fsci, fwi, max_send, rng.choice([256, 255]), chunk, wtx, rng.choice([1, 1, 2, 59, 60, 63, 0, 0x41, 0x7B, 0x80]), rlen,
                   rng.choice([b"\x90\x00", b"\x90\x00", b"\x6a\x82", b"\x00\x00"]), ats=ats)
-        ncmd = 1 if rng.random() < 0.7 else rng.choice([2, 3])
+        ncmd = 1 if rng.random() < 0.7 else rng.choice([2, 3, 4, 5])
         cmds = []
         for j in range(ncmd):
-            if rng.random() < 0.04:
+            if rng.random() < 0.12:
                 cmds.append(None)
             else:
                 n = clen if j == 0 else max(0, clen + rng.choice([-1, 0, 1]))
@@ -549,7 +700,7 @@ def run(ck):
 
     # ------------------------------------------------------------------ send_apdu (APDU encoding and status word)
     apdu_reqs = []
-    for _ in range(1500 if ck.thorough else 300):
+    def apdu_case():
         ext = rng.random() < 0.4
         dl = rng.choice([0, 0, 1, 2, 7, 10, 254, 255, 256, 300]) if rng.random() < 0.8 else rng.randrange(0, 600)
         mrl = rng.choice([0, 0, 1, 2, 255, 256, 257, 65535, 65536, 65537]) if rng.random() < 0.8 else rng.randrange(0, 70000)
@@ -564,13 +715,12 @@ def run(ck):
         tag, air, card = activate(cfg, script, sims, tt4, nfc.clf)
         tag._extended_length_support = ext
         try:
-            r = tag.send_apdu(cla, ins, p1, p2, bytearray(data) if dl or rng.random() < 0.5 else None, mrl, check)
-            res = "ok " + hx(r)
+            res = res_str(tag.send_apdu(cla, ins, p1, p2, bytearray(data) if dl or rng.random() < 0.5 else None, mrl, check))
         except Exception as e:  # noqa
             res = "exc " + exc_name(e)
         real = canon([res], tag._dep, [b for b, _ in air.trace], card.log, card.bn)
-        line = "apdu %d %d %d %s %s %d %d %d %d %d %s %d %d" % (
-            tag._dep.miu, tag._dep.n_retry_nak, tag._dep.n_retry_ack, cfg.card_words(), script or "-",
+        line = "apdu %d %d %d %d %s %s %d %d %d %d %d %s %d %d" % (
+            tag._dep.miu, tag._dep.n_retry_nak, tag._dep.n_retry_ack, wlim_of(tag._dep, cfg.fwi), cfg.card_words(), script or "-",
             int(ext), cla, ins, p1, p2, hx(data), mrl, int(check))
         replay = {"config": cfg.as_dict(), "script": script, "send_apdu": [cla, ins, p1, p2, data.hex(), mrl, check], "ext": ext, "impl": real}
         apdu_reqs.append((line, real, replay))
@@ -596,9 +746,17 @@ def run(ck):
                 if bytes.fromhex(res[3:].replace("-", "")) != want or (check and full[-2:] != b"\x90\x00"):
                     ck.fail("isodep-wrong-response", "send_apdu returned %s for card response %s" % (res, full.hex()), replay)
 
+    for _ in range(1500 if ck.thorough else 300):
+        if len(ck.fails) >= 50:
+            break
+        try:
+            apdu_case()
+        except Exception as e:  # noqa - never crash on what the code under test does
+            ck.fail("isodep-unexpected-behaviour", "%s: %s (%s)" % (type(e).__name__, e, where(e)), {"section": "apdu_case"})
+
     # ------------------------------------------------------------------ any card: scripted answers that follow no rule
     raw_reqs = []
-    for _ in range(6000 if ck.thorough else 1500):
+    def raw_case():
         fsci = rng.randrange(9)
         fwi = rng.choice([4, 9, 10, 11, 12])
         cfg = Cfg(rng.choice("AB"), fsci, fwi)
@@ -640,14 +798,16 @@ def run(ck):
         results = []
         for c in cmds:
             try:
-                results.append("ok " + hx(tag.transceive(bytearray(c))))
+                results.append(res_str(tag.transceive(bytearray(c))))
+            except sims.SimLimit:
+                results.append("exc SimLimit")
             except Exception as e:  # noqa
                 results.append("exc " + exc_name(e))
         dep = tag._dep
         errno = getattr(dep, "errno", None)
         real = "%s | %d/%s | %s" % (";".join(results), dep.pni, "none" if errno is None else "%d" % errno,
                                     ",".join(hx(b) for b, _ in air.trace) or ".")
-        line = "raw %d %d %d %s %s" % (dep.miu, dep.n_retry_nak, dep.n_retry_ack,
+        line = "raw %d %d %d %d %s %s" % (dep.miu, dep.n_retry_nak, dep.n_retry_ack, wlim_of(dep, fwi),
                                        ",".join("x" if r is None else hx(r) for r in replies) or ".", ",".join(hx(c) for c in cmds))
         replay = {"card_answers": [None if r is None else r.hex() for r in replies], "commands": [c.hex() for c in cmds],
                   "fsci": fsci, "fwi": fwi, "kind": cfg.kind, "impl": real}
@@ -658,10 +818,19 @@ def run(ck):
                 ck.fail("isodep-raw-exception-any-card", "transceive(%s) raised %s against a card answering %s"
                         % (c.hex(), r[4:], replay["card_answers"]), replay)
 
+    for _ in range(6000 if ck.thorough else 1500):
+        if len(ck.fails) >= 50:
+            break
+        try:
+            raw_case()
+        except Exception as e:  # noqa - never crash on what the code under test does
+            ck.fail("isodep-unexpected-behaviour", "%s: %s (%s)" % (type(e).__name__, e, where(e)), {"section": "raw_case"})
+
     # ------------------------------------------------------------------ compare with the model
     for name, batch, exh in (("activation parameters (FSCI x FWI x device limit x A/B)", act_reqs, True),
                              ("exchange under fault scripts", reqs, False), ("send_apdu", apdu_reqs, False),
-                             ("rule-less card (scripted answers)", raw_reqs, False)):
+                             ("rule-less card (scripted answers)", raw_reqs, False),
+                             ("cards that never stop (endless S(WTX) / R(ACK) / chaining, cycles)", cyc_reqs, False)):
         replies = model.ask_many([r[0] for r in batch])
         dis = 0
         for (line, real, replay), rep in zip(batch, replies):
